@@ -123,7 +123,11 @@ class FileInfo:
         new.name = "<module>"
         self.defs = {}
         self._annotate()
-        self.inlined_artefacts = {q for q, d in self.defs.items() if isinstance(d, ast.FunctionDef) and d.name in inlined and is_artefact(self.rel, d, nested=isinstance(getattr(d, '_p', None), (ast.FunctionDef, ast.If, ast.With, ast.Try, ast.For, ast.While)))}
+        from .normalize import baseline as _baseline
+        new_classes = {c.name for c in new.body if isinstance(c, ast.ClassDef) and c.name not in _baseline().get(self.rel, set())}
+        self.inlined_artefacts = {q for q, d in self.defs.items() if isinstance(d, ast.FunctionDef) and d.name in inlined and (
+            is_artefact(self.rel, d, nested=isinstance(getattr(d, '_p', None), (ast.FunctionDef, ast.If, ast.With, ast.Try, ast.For, ast.While)))
+            or (isinstance(getattr(d, '_p', None), ast.ClassDef) and d._p.name in new_classes and q.split(".")[0] in new_classes))}      # methods of a class that is itself new
 
     def _undo_closure_renames(self, tree) -> None:
         """A baseline closure (an anchor such as `_render_image.update_buffer`) that was merely renamed: when exactly one nested def of
